@@ -220,6 +220,8 @@ def run_case(ctx, i, rng):
             src = os.path.join(d, "s.eblif")
             with open(src, "w") as fh:
                 fh.write(text)
+            src = common.input_variant(src, rng)       # (.eblif / .blif, any letter case, or a single-file zip archive)
+            ctx.count("input_name:" + os.path.splitext(src)[1].lower())
             what = "generated %s" % feats
             try:
                 # (generated texts are small: a few thousand function entries; two million without returning is a reader that loops)
